@@ -17,15 +17,15 @@ checks = {
  "C07": ("exploration", "translated-twin simulation with a call recorder between altroot and underlying filesystem, hostile path expressions", "7/C07",
          "Each operation runs through AltrootFS(U at P) and, translated to P+q, on an identical twin U'; outcomes, the whole of U vs U' (inside and beside P), the altroot view vs the subtree, every path the altroot hands to U (recorder), and sentinels beside physical roots are compared after every step; 45% of path expressions are hostile equivalents ('..' chains, absolute segments, './', '//')."),
  "C08": ("exploration", "recorded simulation: call log of every layer plus deep before/after snapshots of lower layers", "7/C08",
-         "Overlays of 2-4 layers (Mem/Phys/altroot/nested overlay layers, generated lower contents); after every step no mutating call may have reached a lower layer (or any layer during a pure observer), and type/bytes/created/modified of every lower entry are unchanged; 40% of the runs fail one underlying call. A third of the runs are replayed through the async port (AsyncOverlayFS stacks inside a tokio runtime, recorder on every async layer, half of them with a k-th-call failure), and a quarter of the all-memory runs end with a two-thread phase under the seeded scheduler (tail of the history split over two callers, or a targeted writer-vs-remover race on a lower-layer file): no mutating call may reach a lower layer under any explored schedule."),
+         "Overlays of 2-4 layers (Mem/Phys/altroot/nested overlay layers, generated lower contents); after every step no mutating call may have reached a lower layer (or any layer during a pure observer), and type/bytes/created/modified of every lower entry are unchanged; 40% of the runs fail one underlying call. A third of the runs are replayed through the async port (AsyncOverlayFS stacks inside a tokio runtime, recorder on every async layer, half of them with a k-th-call failure), and a quarter of the all-memory runs end with a two-thread phase under the seeded scheduler (tail of the history split over two callers, or a targeted writer-vs-remover race on a lower-layer file): no mutating call may reach a lower layer under any explored schedule. Mutating calls issued while the simulator's own per-step snapshot (pure observers only) runs are reported as observer mutations too."),
  "C09": ("exploration", "seeded search over histories on pre-populated overlays, refinement check against the union model", "7/C09",
          "Model initialised with the upper-shadows-lower union of generated type-consistent layer contents (1-4 layers, same path in several layers with different bytes), then C01's oracle with a mix biased to create-over-lower, remove-with-lower-children, append-to-lower."),
  "C10": ("exploration", "removal/re-creation cycle workload with tombstone, freshness and marker-hygiene monitors", "7/C10",
          "1-4 cycles of removals (file, empty dir, remove_dir_all of lower subtrees), unrelated operations and re-creation with same/other type on 2-4 layer overlays; after every later step removed paths and former descendants are invisible to all six observers, re-created entries hold only new content, no listing/walk yields a bookkeeping name. In a third of the runs one re-creation is made to fail by an injected I/O error of an underlying call (a failed re-creation re-creates nothing), and part of the runs are replayed, with the same failure and seeded Pending injection, through the async overlay. The injected failure may also hit a removal: a removal the contract refuses (non-empty directory) that reports success under the failure counts as a removal of the whole subtree. An operation that needs its target to exist (append, read, remove, copy/move source, time setter) and succeeds on a removed, not re-created entry is reported as well."),
  "C11": ("exploration", "seeded search over source trees and ordered filesystem pairs, refinement check against a two-filesystem model", "7/C11",
-         "copy/move/copy_dir/move_dir/create_dir_all/remove_dir_all between same instance (fast paths), two instances of one backend and two different stacks; return values, both filesystems' full snapshots and refusal of existing destinations without side effects."),
+         "copy/move/copy_dir/move_dir/create_dir_all/remove_dir_all between same instance (fast paths), two instances of one backend and two different stacks; return values, both filesystems' full snapshots and refusal of existing destinations without side effects. A third of the histories (pairs of filesystems included) are replayed through AsyncVfsPath inside a tokio runtime against the same two-filesystem model (outcomes of the transfers, both trees after each of them)."),
  "C12": ("exploration", "error monitor over failing calls with disjoint inner/outer name pools", "7/C12",
-         "Every Err of every call and every walk item in failure-heavy histories on adapter stacks: path is not the placeholder, lies in the caller's namespace at/above/below receiver or destination, Display leaks no inner name; not-found / file-exists / directory-exists / invalid-path / not-supported classes where the statement demands them. In a third of the runs one underlying call of one operation (biased to composites) fails with an injected I/O error; the error of that step must satisfy the same path rules (classification is judged on fault-free steps only) and the run ends there. A third of the runs are replayed through the async port (same failure, seeded Pending injection, inside a tokio runtime): every error of AsyncVfsPath and the async adapters obeys the same rules (the text of a runtime I/O error itself is exempt from the name rule: async-std puts host paths there)."),
+         "Every Err of every call and every walk item in failure-heavy histories on adapter stacks: path is not the placeholder, lies in the caller's namespace at/above/below receiver or destination, Display leaks no inner name; not-found / file-exists / directory-exists / invalid-path / not-supported classes where the statement demands them. In a third of the runs one underlying call of one operation (biased to composites) fails with an injected I/O error; the error of that step must satisfy the same path rules (classification is judged on fault-free steps only) and the run ends there. A third of the runs are replayed through the async port (same failure, seeded Pending injection, inside a tokio runtime): a time setter on an entry missing from an existing directory must answer not-found (or not-supported); every error of AsyncVfsPath and the async adapters obeys the same rules (the text of a runtime I/O error itself is exempt from the name rule: async-std puts host paths there)."),
  "C13": ("exploration", "unrestricted call sequences with environment, I/O and stale-handle faults under catch_unwind", "7/C13",
          "All backends incl. EmbeddedFS and type-conflicting overlay layers; hostile joins, root calls, wrong-type calls, extreme seek offsets, zero-length buffers, handles kept across removals; on-disk non-UTF-8 names, dangling symlinks, unix-socket files, symlinks to themselves and to siblings, entries removed behind the library (each often followed by a direct look at the entry); k-th-call I/O errors (one-shot/sticky), short I/O, EINTR. Any panic in a call, handle call, observer or drop is a violation."),
  "C14": ("exploration", "handle call scripts compared call by call with std::io::Cursor (count feedback), publish check at flush/drop", "7/C14",
